@@ -597,6 +597,7 @@ func (m *hdMcu) open() []*hdMcuObj {
 type hdClient struct {
 	idx    int
 	conn   *websocket.Conn
+	wmu    sync.Mutex // websocket writes: the harness's goroutine and the reader's dial-out answers
 	mu     sync.Mutex
 	msgs   [][]byte
 	closed bool
@@ -619,7 +620,23 @@ func (c *hdClient) reader() {
 		c.mu.Lock()
 		c.msgs = append(c.msgs, data)
 		c.mu.Unlock()
+		c.answerDialout(data)
 	}
+}
+
+// answerDialout: a dial-out request of the room API ("internal"/"dialout", only ever sent to internal clients
+// that announced "start-dialout") is accepted at once, from the reader goroutine, so that the HTTP call that
+// waits for the answer returns immediately.
+func (c *hdClient) answerDialout(data []byte) {
+	if !bytes.Contains(data, []byte(`"internal"`)) {
+		return
+	}
+	var m ServerMessage
+	if err := json.Unmarshal(data, &m); err != nil || m.Type != "internal" || m.Internal == nil || m.Internal.Type != "dialout" || m.Id == "" {
+		return
+	}
+	id, _ := json.Marshal(m.Id)
+	c.send([]byte(`{"type":"internal","id":` + string(id) + `,"internal":{"type":"dialout","dialout":{"type":"status","status":{"status":"accepted","callid":"c"}}}}`)) // nolint
 }
 
 func (c *hdClient) take() ([][]byte, bool) {
@@ -649,6 +666,8 @@ func (c *hdClient) isClosed() bool {
 }
 
 func (c *hdClient) send(data []byte) error {
+	c.wmu.Lock()
+	defer c.wmu.Unlock()
 	return c.conn.WriteMessage(websocket.TextMessage, data)
 }
 
